@@ -202,6 +202,7 @@ def run_case(case):
             e = cap.Ends(8, v6=bool(sc.get("v6")))
             flow = scen.Flow("quic", conn, e, 0, scen.quic_packets(conn, 0))
             pkts = cap.stamp(flow.pkts, {0: e})
+            c02.restamp(pkts, sc.get("ts"))
             res = scen.run(pkts, conn.keylog)
             n += 1
             sig = {"layer": "Q", "dev": {k: str(v) for k, v in sc.items()}, "tail": tail, "cut": cut}
